@@ -309,34 +309,40 @@ where
         });
     }
 
-    let original = original.into_iter();
+    let mut original = original.into_iter();
     let mut recovery = recovery.into_iter();
 
-    let (shard_bytes, first_recovery) = if let Some(first_recovery) = recovery.next() {
-        (first_recovery.1.as_ref().len(), first_recovery)
+    // Shard size is that of the first recovery shard,
+    // or of the first original shard if no recovery shards are given.
+    let first_recovery = recovery.next();
+    let mut first_original = None;
+
+    let shard_bytes = if let Some(first_recovery) = &first_recovery {
+        first_recovery.1.as_ref().len()
+    } else if let Some(first) = original.next() {
+        let shard_bytes = first.1.as_ref().len();
+        first_original = Some(first);
+        shard_bytes
     } else {
-        // NO RECOVERY SHARDS
-
-        let original_received_count = original.count();
-        if original_received_count == original_count {
-            // Nothing to do, original data is complete.
-            return Ok(HashMap::new());
-        }
-
         return Err(Error::NotEnoughShards {
             original_count,
-            original_received_count,
+            original_received_count: 0,
             recovery_received_count: 0,
         });
     };
 
     let mut decoder = ReedSolomonDecoder::new(original_count, recovery_count, shard_bytes)?;
 
+    if let Some((index, original)) = first_original {
+        decoder.add_original_shard(index, original)?;
+    }
     for (index, original) in original {
         decoder.add_original_shard(index, original)?;
     }
 
-    decoder.add_recovery_shard(first_recovery.0, first_recovery.1)?;
+    if let Some((index, recovery)) = first_recovery {
+        decoder.add_recovery_shard(index, recovery)?;
+    }
     for (index, recovery) in recovery {
         decoder.add_recovery_shard(index, recovery)?;
     }
